@@ -34,7 +34,10 @@ def describe(tier):
         'microsecond resolution (so offsets with a seconds part are '
         'included)',
         'seconds / window': 'every integer number of seconds in +-3.2*10^11 '
-        '(the exact-equality boundary and negative values included)',
+        '(the exact-equality boundary and negative values included), and '
+        'every such integer plus 1/64, 1/4, 1/2 or 63/64 s passed as a float '
+        '(fractional and negative fractional counts that are a whole number '
+        'of microseconds)',
         'override': 'set_time_override with a single instant, '
         'advance_time_delta by any delta within +-365 days at microsecond '
         'resolution, advance_time_seconds by any integer in +-10^7',
@@ -42,7 +45,7 @@ def describe(tier):
         'calendar dates), naive and UTC; leap second',
         'outside': 'parse_isotime / ISO-string arguments (iso8601 not '
         'encoded), named zones (zoneinfo), list-valued overrides, fractional '
-        'second counts, the non-overridden clock',
+        'second counts other than n + k/64, the non-overridden clock',
         'TimeFixture': 'setUp / advance_time_delta / advance_time_seconds / '
         'cleanUp over the same symbolic instants',
     }
